@@ -32,8 +32,9 @@ pub fn run(ctx: &Ctx) -> Outcome {
     let secs = if ctx.quick() { 30. } else { 600. };
     run_cases(ctx, &mut out, SubSpec { name: "fill_rect_routes", cases: ctx.n(300_000, 4_000_000), exhaustive: false, max_secs: secs }, |i, want, st| {
         let mut rng = ctx.rng("fill_rect_routes", i);
-        let w = rng.int(1, 16) as i32;
-        let h = rng.int(1, 16) as i32;
+        let wide = rng.chance(0.06);
+        let w = if wide { rng.int(33, 90) } else { rng.int(1, 16) } as i32;
+        let h = if wide { rng.int(1, 4) } else { rng.int(1, 16) } as i32;
         let n = (w * h) as usize;
         let init = canary(&mut rng, n);
         let (x, y) = (rng.int(-4, w as i64 + 2) as f32, rng.int(-4, h as i64 + 2) as f32);
